@@ -43,7 +43,7 @@ def cmd_check(args):
     report = lib.Report(pid, tier, seed)
     try:
         mod = importlib.import_module("props." + pid.lower())
-        res = lib.check_props(pid)
+        res = lib.check_props(pid, tier)
         report.add_props(res)
         mod.check(report, tier, seed)
     except lib.BuildError as e:
